@@ -21,6 +21,7 @@ import JV.Proofs.JsonParserString
 import JV.Proofs.JsonParserRefine
 import JV.Proofs.JsonParserSoundScalar
 import JV.Proofs.JsonParserSound
+import JV.Proofs.JsonParserOptsComments
 import JV.Proofs.JsonParserSoundNec
 namespace JV.Props.C02
 open JV Spec.Rfc8259
@@ -428,6 +429,90 @@ example : accepted (run ⟨8, false, true⟩ [123, 44, 125]) = false ∧
     (parseText { comments := false, trailingComma := true, maxDepth := 8 } [123, 44, 125]).isSome = false := by decide
 example : accepted (run ⟨8, false, true⟩ [123, 34, 97, 34, 58, 49, 44, 44, 125]) = false ∧
     (parseText { comments := false, trailingComma := true, maxDepth := 8 } [123, 34, 97, 34, 58, 49, 44, 44, 125]).isSome = false := by decide
+
+/-! #### `allow_comments` -/
+
+/-- the reference's `JSON-text` with PLAIN white space only after the value, `ws value *( SP / HT / LF / CR )`, where the leading
+    `ws` and every `ws` inside the value may contain comments when `fl.comments`. This is what the parser implements: after the
+    root value its `check_done` knows no comments (finding D22 — witnesses below), so a comment after the root value is an error
+    even with `allow_comments`. -/
+abbrev parseTextPlainTail (fl : Flags) (bs : Bytes) : Option JT := Model.JsonParser.parseTextPlainTail fl bs
+
+/-- decidable: the reference's final `ws` consumed plain white space only (vacuously true when the reference reads no value) -/
+abbrev NoCommentAfterValue (fl : Flags) (bs : Bytes) : Prop := plainTail fl bs = true
+
+/-- `parseTextPlainTail` is exactly `parseText` on the texts without a comment after the value … -/
+theorem plain_tail_iff (fl : Flags) (bs : Bytes) (v : JT) :
+    parseTextPlainTail fl bs = some v ↔ (parseText fl bs = some v ∧ NoCommentAfterValue fl bs) :=
+  parseTextPlainTail_some fl bs v
+
+/-- … and is `parseText` itself when comments are off -/
+theorem plain_tail_without_comments (fl : Flags) (hc : fl.comments = false) (bs : Bytes) :
+    parseTextPlainTail fl bs = parseText fl bs :=
+  parseTextPlainTail_nc fl hc bs
+
+/-- COMPLETENESS for EVERY option setting, against the reference with exactly the parser's options (comments, trailing commas,
+    nesting limit): if the reference reads `bs` as the value `v` and no comment follows the value, the parser accepts `bs` and
+    reports exactly the events of `v` — block comments (with `*`, `**`, CR, CR LF inside), line comments (ended by CR or LF, which is
+    then read as white space), in front of the value and wherever the grammar has `ws` inside it; comments report nothing.
+    (Proof: Proofs/JsonParserOptsComments — `/* … */` and `// …` are skipped by the `slash`, `slash_star`, `slash_star_star`,
+    `slash_slash` and `cr` states exactly as by the reference's `skipWs`.) -/
+theorem parse_complete_options (cfg : Cfg) (bs : Bytes) (v : JT)
+    (h : parseText { comments := cfg.comments, trailingComma := cfg.trailingComma, maxDepth := cfg.maxDepth } bs = some v)
+    (hp : NoCommentAfterValue { comments := cfg.comments, trailingComma := cfg.trailingComma, maxDepth := cfg.maxDepth } bs) :
+    accepted (run cfg bs) = true ∧ (run cfg bs).evs.reverse.map eraseNoesc = eventsOf v :=
+  run_complete_opt cfg bs v ((parseTextPlainTail_some _ bs v).2 ⟨h, hp⟩)
+
+/-- the comment-enabled configurations in particular -/
+theorem parse_complete_comments (cfg : Cfg) (bs : Bytes) (v : JT) (hc : cfg.comments = true)
+    (h : parseTextPlainTail { comments := true, trailingComma := cfg.trailingComma, maxDepth := cfg.maxDepth } bs = some v) :
+    accepted (run cfg bs) = true ∧ (run cfg bs).evs.reverse.map eraseNoesc = eventsOf v :=
+  run_complete_opt cfg bs v (by
+    rw [show optFlags cfg = { comments := true, trailingComma := cfg.trailingComma, maxDepth := cfg.maxDepth } from (by simp [hc])]
+    exact h)
+
+/-- the options only RELAX: a text without surrogate anomaly that the strict parser accepts is accepted under every other option
+    setting (same nesting limit), with the same events -/
+theorem options_only_relax (cfg cfg' : Cfg) (bs : Bytes) (hc : cfg.comments = false) (ht : cfg.trailingComma = false)
+    (hd : cfg'.maxDepth = cfg.maxDepth) (hs : NoSurrogateAnomaly bs) (h : accepted (run cfg bs) = true) :
+    accepted (run cfg' bs) = true ∧
+      (run cfg' bs).evs.reverse.map eraseNoesc = (run cfg bs).evs.reverse.map eraseNoesc := by
+  obtain ⟨v, hv, hev⟩ := parse_sound cfg bs hc ht hs h
+  have := run_complete cfg' bs v (by rw [show strictFlags cfg' = strictFlags cfg from (by simp [hd])]; exact hv)
+  exact ⟨this.1, this.2.trans hev.symm⟩
+
+-- non-vacuity: [1/*c*/,2] and [1,//x<LF>2] and [/*<CR>**/1<CR>] and, with both options, {"a"/**/:/**/1,/**/} <LF>
+example : (parseTextPlainTail { comments := true, trailingComma := false, maxDepth := 8 } [91, 49, 47, 42, 99, 42, 47, 44, 50, 93]).isSome = true := by
+  decide
+example : accepted (run ⟨8, true, false⟩ [91, 49, 47, 42, 99, 42, 47, 44, 50, 93]) = true ∧
+    (run ⟨8, true, false⟩ [91, 49, 47, 42, 99, 42, 47, 44, 50, 93]).evs.reverse = [.beginArray, .int [49], .int [50], .endArray] := by decide
+example : (parseTextPlainTail { comments := true, trailingComma := false, maxDepth := 8 } [91, 49, 44, 47, 47, 120, 10, 50, 93]).isSome = true ∧
+    accepted (run ⟨8, true, false⟩ [91, 49, 44, 47, 47, 120, 10, 50, 93]) = true := by decide
+example : (parseTextPlainTail { comments := true, trailingComma := false, maxDepth := 8 } [91, 47, 42, 13, 42, 42, 47, 49, 13, 93]).isSome = true ∧
+    accepted (run ⟨8, true, false⟩ [91, 47, 42, 13, 42, 42, 47, 49, 13, 93]) = true := by decide
+example : (parseTextPlainTail { comments := true, trailingComma := true, maxDepth := 8 }
+      [123, 34, 97, 34, 47, 42, 42, 47, 58, 47, 42, 42, 47, 49, 44, 47, 42, 42, 47, 125, 32, 10]).isSome = true ∧
+    accepted (run ⟨8, true, true⟩ [123, 34, 97, 34, 47, 42, 42, 47, 58, 47, 42, 42, 47, 49, 44, 47, 42, 42, 47, 125, 32, 10]) = true := by decide
+-- D22 (recorded divergence): a comment AFTER the root value — [1/*c*/,2]//x and 1/**/ — the reference's final `ws` takes it, the
+-- parser's `check_done` refuses it with extra_character; `NoCommentAfterValue` is false on exactly these
+example : (parseText { comments := true, trailingComma := false, maxDepth := 8 } [91, 49, 47, 42, 99, 42, 47, 44, 50, 93, 47, 47, 120]).isSome = true ∧
+    (run ⟨8, true, false⟩ [91, 49, 47, 42, 99, 42, 47, 44, 50, 93, 47, 47, 120]).err = some eExtraCharacter ∧
+    ¬ NoCommentAfterValue { comments := true, trailingComma := false, maxDepth := 8 } [91, 49, 47, 42, 99, 42, 47, 44, 50, 93, 47, 47, 120] := by
+  decide
+example : (parseText { comments := true, trailingComma := false, maxDepth := 8 } [49, 47, 42, 42, 47]).isSome = true ∧
+    (run ⟨8, true, false⟩ [49, 47, 42, 42, 47]).err = some eExtraCharacter := by decide
+-- both refuse: an unterminated block comment [1/* (unexpected_eof), a lone slash [1/ ] (syntax_error), a line comment that runs to
+-- the end of the input [1//x (unexpected_eof), /*/ (the `*` cannot serve twice); with comments off a comment is illegal_comment
+example : (run ⟨8, true, false⟩ [91, 49, 47, 42]).err = some eUnexpectedEof ∧
+    parseText { comments := true, trailingComma := false, maxDepth := 8 } [91, 49, 47, 42] = none := by decide
+example : (run ⟨8, true, false⟩ [91, 49, 47, 32, 93]).err = some eSyntax ∧
+    parseText { comments := true, trailingComma := false, maxDepth := 8 } [91, 49, 47, 32, 93] = none := by decide
+example : (run ⟨8, true, false⟩ [91, 49, 47, 47, 120]).err = some eUnexpectedEof ∧
+    parseText { comments := true, trailingComma := false, maxDepth := 8 } [91, 49, 47, 47, 120] = none := by decide
+example : (run ⟨8, true, false⟩ [47, 42, 47, 49]).err = some eUnexpectedEof ∧
+    parseText { comments := true, trailingComma := false, maxDepth := 8 } [47, 42, 47, 49] = none := by decide
+example : (run ⟨8, false, false⟩ [91, 49, 47, 42, 42, 47, 93]).err = some eIllegalComment ∧
+    parseText { comments := false, trailingComma := false, maxDepth := 8 } [91, 49, 47, 42, 42, 47, 93] = none := by decide
 
 end ParserOptions
 
